@@ -156,8 +156,9 @@ def r09_2(ctx):
 
 
 class BackwardHooks(Hooks):
-    def __init__(self, T, n_extras_saved):
+    def __init__(self, T, n_extras_saved, zero=()):
         self.T = T
+        self.zero = {f"grad_ys[{k}]" for k in zero}       # output cotangents that are identically zero in this scenario
         self.applies = []
         self.adjoint_sde_args = []
         self.reverse_args = []
@@ -202,11 +203,23 @@ class BackwardHooks(Hooks):
             return Cat("stack", list(args[0]), kwargs.get("dim", Fraction(0)))
         if dotted == "torch.zeros_like":
             return nf.fn("ZEROS_LIKE", args[0])
+        if dotted in ("torch.any", "torch.count_nonzero") and len(args) == 1:
+            return self._nonzero(args[0], node, fi)
         return NotImplemented
+
+    def _nonzero(self, x, node, fi):
+        """`x.any()` for an output cotangent: decided by the scenario (which cotangents are identically zero)."""
+        name = str(x)
+        if isinstance(x, Rat) and name.startswith("grad_ys["):
+            return name not in self.zero
+        raise AnalysisError(f"data-dependent test on `{name}` in the backward pass is outside the scenarios",
+                            where=astq.loc(fi, node))
 
     def tensor_method(self, interp, recv, name, args, kwargs, node, fi):
         if name == "size":
             return "size-of-" + str(recv)
+        if name in ("any", "count_nonzero") and not args:
+            return self._nonzero(recv, node, fi)
         return NotImplemented
 
 
@@ -221,9 +234,9 @@ def _indexable(name, T):
     return o
 
 
-def eval_backward(model, T=4, saved_extras=False):
+def eval_backward(model, T=4, saved_extras=False, zero=()):
     bwd = model.func(ADJOINT, "_SdeintAdjointMethod.backward")
-    hooks = BackwardHooks(T, 1 if saved_extras else 0)
+    hooks = BackwardHooks(T, 1 if saved_extras else 0, zero)
     it = Interp(model, hooks)
     ys, ts, grad_ys = _indexable("ys", T), _indexable("ts", T), _indexable("grad_ys", T)
     extras = [nf.sym("SAVED_E")] if saved_extras else []
@@ -239,32 +252,57 @@ def eval_backward(model, T=4, saved_extras=False):
         out = it.call_function(bwd, [ctx_obj, grad_ys] + gex, {})
     except (AnalysisError, SimRaise) as e:
         out, err = None, e
-    return dict(out=out, hooks=hooks, bwd=bwd, P=P, T=T, gex=gex, extras=extras, err=err)
+    return dict(out=out, hooks=hooks, bwd=bwd, P=P, T=T, gex=gex, extras=extras, err=err, zero=tuple(zero))
+
+
+def _gy(k, zero):
+    return Rat.const(0) if k in zero else nf.sym(f"grad_ys[{k}]")
 
 
 def r09_4(ctx):
     rep, model = ctx.rep, ctx.model
-    rep.rule("R09.4", "backward sweep (T = 4): pieces (-ts[i], -ts[i-1]) for i = T-1..1 once each, on ReverseBrownian("
-                      "ctx.bm); state reset to ys[i-1]; cotangent grad_ys[i-1] added once; grad_ys[-1] seeds; R09.3 "
+    rep.rule("R09.4", "backward sweep (T = 4; every cotangent non-zero, and trailing cotangents identically zero): pieces "
+                      "(-ts[i], -ts[i-1]) contiguous down to (ts[1], ts[0]) on ReverseBrownian(ctx.bm), starting at ts[-1] -- "
+                      "or, only without saved extras, at the last output time with a non-zero cotangent; state reset to "
+                      "ys[i-1]; cotangent grad_ys[i-1] added once; saved extras only ever paired with ts[-1]; R09.3 "
                       "saved-tensor layout")
-    for saved, T in [(s, t) for s in (False, True) for t in ((4,) if ctx.tier == "quick" else (2, 3, 4, 6))]:
-        r = eval_backward(model, T, saved)
+    Ts = (4,) if ctx.tier == "quick" else (2, 3, 4, 6)
+    scen = []
+    for saved in (False, True):
+        for T in Ts:
+            scen.append((saved, T, ()))
+            if T >= 3:
+                scen.append((saved, T, (T - 1,)))
+            if T >= 4:
+                scen.append((saved, T, (T - 1, T - 2)))
+    for saved, T, zero in scen:
+        r = eval_backward(model, T, saved, zero)
         bwd, hooks, T = r["bwd"], r["hooks"], r["T"]
         rep.analysed(bwd)
-        tag = ("extras-saved" if saved else "plain") + f"/T={T}"
-        aps = hooks.applies
-        rep.check(len(aps) == T - 1, "R09.4", astq.loc(bwd), f"{bwd.key}::R09.4::pieces::{tag}",
-                  f"the backward pass solves {len(aps)} adjoint pieces for {T} output times (expected {T - 1}): an output "
-                  f"interval is skipped or repeated", f"{T - 1} pieces")
-        if len(aps) != T - 1:
-            continue
+        tag = ("extras-saved" if saved else "plain") + f"/T={T}" + (f"/zero-cotangents={list(zero)}" if zero else "")
         if r["err"] is not None:
-            raise r["err"] if isinstance(r["err"], AnalysisError) else AnalysisError(str(r["err"]))
+            e = r["err"]
+            raise e if isinstance(e, AnalysisError) else AnalysisError(f"backward pass ({tag}): {e}", where=astq.loc(bwd))
+        aps = hooks.applies
         fwd = model.func(ADJOINT, "_SdeintAdjointMethod.forward")
         params = fwd.params[1:]
         i_ts, i_bm, i_sde, i_y0 = params.index("ts"), params.index("bm"), params.index("sde"), params.index("y0")
+        # where does the sweep start?  ts[T-1], or (plain only) the last output time whose cotangent is non-zero
+        s_full = T - 1
+        s_min = max([k for k in range(T) if k not in zero and k >= 1] + [1])
+        admissible = {s_full} if saved else set(range(s_min, T))
+        n_pieces = len(aps)
+        rep.check(n_pieces in admissible, "R09.4", astq.loc(bwd), f"{bwd.key}::R09.4::pieces::{tag}",
+                  f"the backward pass solves {n_pieces} adjoint pieces for {T} output times"
+                  + (f" when the cotangents of outputs {list(zero)} are zero" if zero else "")
+                  + (": the extra solver state saved by forward belongs to ts[-1], so the sweep must start there and solve "
+                     f"all {T - 1} pieces" if saved else f" (admissible: {sorted(admissible)}): an output interval is skipped or repeated"),
+                  f"{sorted(admissible)} pieces")
+        if n_pieces not in admissible:
+            continue
+        s0 = n_pieces
         for n, a in enumerate(aps):
-            i = T - 1 - n
+            i = s0 - n
             tsarg = a[i_ts]
             ok = isinstance(tsarg, Cat) and len(tsarg.parts) == 2 and nf.equal(tsarg.parts[0], -nf.sym(f"ts[{i}]", True)) \
                 and nf.equal(tsarg.parts[1], -nf.sym(f"ts[{i - 1}]", True))
@@ -276,13 +314,16 @@ def r09_4(ctx):
                       f"adjoint piece {n} is solved on bm={a[i_bm]!r}, sde={a[i_sde]!r}", "AdjointSDE on ReverseBrownian")
             aug = a[i_y0]
             if n == 0:
-                want0, want1 = nf.sym(f"ys[{T - 1}]"), nf.sym(f"grad_ys[{T - 1}]")
+                want0, want1 = nf.sym(f"ys[{i}]"), _gy(i, zero)
             else:
-                want0, want1 = nf.sym(f"ys[{i}]"), nf.sym(f"B{n}_1") + nf.sym(f"grad_ys[{i}]")
-            ok = isinstance(aug, Cat) and len(aug.parts) >= 3 and nf.equal(aug.parts[0], want0) and nf.equal(aug.parts[1], want1)
+                want0, want1 = nf.sym(f"ys[{i}]"), nf.sym(f"B{n}_1") + _gy(i, zero)
+            got1 = aug.parts[1] if isinstance(aug, Cat) and len(aug.parts) > 1 else None
+            if isinstance(got1, Rat) and zero:
+                got1 = nf.substitute(got1, {("t", f"grad_ys[{k}]"): Rat.const(0) for k in zero})
+            ok = isinstance(aug, Cat) and len(aug.parts) >= 3 and nf.equal(aug.parts[0], want0) and nf.equal(got1, want1)
             rep.check(ok, "R09.4", astq.loc(bwd), f"{bwd.key}::R09.4::state::{tag}::{n}",
                       f"adjoint piece {n} starts from state block `{aug.parts[0] if isinstance(aug, Cat) else aug}` and "
-                      f"cotangent `{aug.parts[1] if isinstance(aug, Cat) and len(aug.parts) > 1 else None}`; expected "
+                      f"cotangent `{got1}`; expected "
                       f"`{want0}` and `{want1}` (state reset to the stored solution, output cotangent injected once)",
                       "state reset to ys[i]; cotangent = carried + grad_ys[i]")
         if saved:
@@ -305,26 +346,24 @@ def r09_4(ctx):
                   f"the adjoint solver is constructed with {dict((k, str(v)) for k, v in kw.items())}", "adjoint tolerances, reverse bm")
         # R09.3 / final result: last blocks + grad_ys[0]
         out = r["out"]
-        n_none = sum(1 for x in out if x is None)
         tail = [x for x in out if x is not None]
-        last = T - 1
-        want_y = nf.sym(f"B{last}_1") + nf.sym("grad_ys[0]")
+        want_y = nf.sym(f"B{n_pieces}_1") + nf.sym("grad_ys[0]")
         ok = len(tail) >= 2 and nf.equal(tail[0], want_y)
         rep.check(ok, "R09.4", astq.loc(bwd), f"{bwd.key}::R09.4::final-cotangent::{tag}",
                   f"the gradient returned for y0 is `{tail[0] if tail else None}`; expected the carried adjoint plus "
                   f"grad_ys[0] = `{want_y}`", "dL/dy0 = carried adjoint + grad_ys[0]")
-        # initial extras when not saved: init_extra_solver_state(ts[-1], aug_state)
+        # initial extras when not saved: init_extra_solver_state(ts[start], aug_state)
         if not saved:
-            ok = len(hooks.init_calls) == 1 and nf.equal(hooks.init_calls[0][0], nf.sym(f"ts[{T - 1}]", True))
+            ok = len(hooks.init_calls) == 1 and nf.equal(hooks.init_calls[0][0], nf.sym(f"ts[{s0}]", True))
             rep.check(ok, "R09.4", astq.loc(bwd), f"{bwd.key}::R09.4::adjoint-init::{tag}",
-                      f"adjoint extras are initialised with {hooks.init_calls}", "init at (ts[-1], aug_state)")
+                      f"adjoint extras are initialised with {hooks.init_calls}", "init at (time the sweep starts from, aug_state)")
         else:
             rep.check(not hooks.init_calls, "R09.4", astq.loc(bwd), f"{bwd.key}::R09.4::adjoint-init::{tag}",
                       "the saved extras are discarded: init_extra_solver_state is called although extras were saved",
                       "saved extras used")
             a0 = aps[0]
             ok = len(a0) > i_y0 + 1 and isinstance(a0[i_y0 + 1], Rat) and nf.equal(a0[i_y0 + 1], nf.sym("SAVED_E"))
-            rep.check(ok, "R09.3", astq.loc(bwd), f"{bwd.key}::R09.3::saved-extras-used",
+            rep.check(ok, "R09.3", astq.loc(bwd), f"{bwd.key}::R09.3::saved-extras-used::{tag}",
                       "the extras saved by forward are not the ones handed to the first adjoint piece (saved-tensor layout)",
                       "saved extras passed to the first piece")
         a0 = aps[0]
@@ -332,7 +371,7 @@ def r09_4(ctx):
         rep.check(ok, "R09.3", astq.loc(bwd), f"{bwd.key}::R09.3::params::{tag}",
                   "the adjoint parameters handed to the adjoint pieces are not the saved ones (saved-tensor layout)",
                   "saved params passed on")
-    ctx.floor("R09.4", 20)
+    ctx.floor("R09.4", 40)
 
 
 def r09_5(ctx):
